@@ -494,3 +494,44 @@ func VerifC03Answers() {
 	}
 	zzverif.Reach("end")
 }
+
+// VerifC03Strings: control strings of free content (the kinds replies come in: OSC with the
+// prefixes Vaxis listens to, DCS + r / $ r / > | / ! |, APC) can neither crash nor wedge
+// the input side, whatever follows the prefix: 0-4 free bytes, capability flags free, a
+// clipboard requester waiting or not.
+func VerifC03Strings() {
+	vx := verifInputVaxis()
+	verifSymCaps(vx)
+	n := zzverif.Choose("len", 5)
+	tail := make([]rune, n)
+	for i := range tail {
+		b := zzverif.Byte("c")
+		zzverif.Assume(b >= 0x20 && b < 0x7F)
+		tail[i] = rune(b)
+	}
+	if zzverif.Bool("clipboardRequester") {
+		go func() { <-vx.chClipboard }()
+	}
+	var seq ansi.Sequence
+	switch zzverif.Choose("kind", 7) {
+	case 0:
+		pre := []string{"4;", "10;", "11;", "52;", "52;c;", "176;", "66;"}[zzverif.Choose("osc", 7)]
+		seq = ansi.OSC{Payload: append([]rune(pre), tail...)}
+	case 1:
+		seq = ansi.OSC{Payload: tail}
+	case 2:
+		seq = ansi.DCS{Final: 'r', Intermediate: []rune{'+'}, Parameters: []int{zzverif.Choose("p", 2)}, Data: tail}
+	case 3:
+		seq = ansi.DCS{Final: 'r', Intermediate: []rune{'$'}, Parameters: []int{1}, Data: tail}
+	case 4:
+		seq = ansi.DCS{Final: '|', Intermediate: []rune{[]rune{'>', '!'}[zzverif.Choose("i", 2)]}, Data: tail}
+	case 5:
+		seq = ansi.DCS{Final: rune(zzverif.Byte("final")), Data: tail}
+	case 6:
+		seq = ansi.APC{Data: string(tail)}
+	}
+	zzverif.Terminates(3000)
+	vx.handleSequence(seq)
+	zzverif.Assert(len(vx.queue) <= 1, "at-most-one-event-per-control-string")
+	zzverif.Reach("end")
+}
